@@ -159,3 +159,12 @@ package sm3
 //@ inst (*sm3.SM3).checkSum : S = S; L = len(data)
 //@ ensures digest: be(result[0:32]) == sm3_chainI(S, sm3_nblocks(len(data)))
 //@ assigns nothing
+
+// ---------------------------------------------------------------------------------------------
+// Write-effect contracts (property C17): parameters not listed under `writes` are read-only;
+// `immutable` types are never written through a method receiver. Checked by `govc eff`.
+// ---------------------------------------------------------------------------------------------
+//@ func (*sm3.SM3).Write#eff
+//@ func (*sm3.SM3).Sum#eff
+//@ writes in
+//@ func sm3.SumSM3#eff
